@@ -214,7 +214,7 @@ static Profile profile(const std::string& name, bool T) {
     Profile p;
     auto PS = [](uint64_t m, uint64_t tps, int h, bool c = false) { return ParamSpec{m, tps, h, c}; };
     if (name == "flush") {
-        p.alphabet = {"qr1", "qr5", "qr6", "aec0", "aec1", "mm1", "wb", "rotx", "act0", "act1", "act7"};
+        p.alphabet = {"qr1", "qr5", "qr6", "qr7", "aec0", "aec1", "mm1", "wb", "rotx", "act0", "act1", "act7"};
         for (uint64_t m0 : {0, 1, 2, 3}) for (uint64_t m1 : {1, 2}) for (int h : {0, 1, 2})
             p.cfgs.push_back({"m" + std::to_string(m0) + "_" + std::to_string(m1) + "_h" + std::to_string(h), {PS(m0, 1000000, h), PS(m1, 1000000, h)}, PS(2, 1000, 0)});
         p.runs = {{"", S_MEM, 0}}; p.depth_q = 5; p.depth_t = 6;
